@@ -617,7 +617,8 @@ def _run_impl(case: dict) -> dict:
             await asyncio.sleep(0)
             snap()
         keep.append((bus, conns))
-        return snaps, events, sorted(armed), content
+        # (copies: the teardown of the loop cancels the reader tasks, which would add 'return' events)
+        return list(snaps), list(events), sorted(armed), dict(content)
 
     try:
         (snaps, events, armed, content), loop = simloop.run(main)
@@ -863,6 +864,10 @@ def _monitor(case: dict, impl: dict) -> list[Violation]:
 
     final = snaps[-1]
     _message_obligations(case, impl, reqs, {t: f for t, (f, _o) in final['w'].items()}, add)
+    if len(impl['snaps']) >= 4 and len(set(impl['snaps'][-4:])) != 1:
+        # the script ended while things were still moving (a harness matter): the rules below speak of quiescence
+        add('C12-harness-impl-error', 'the script does not reach quiescence within its extra rounds', impl['snaps'][-4:])
+        return vs
     # a call of on_message_received that is over although its handlers are not, or the reverse, is caught above through
     # its waiters; a call that never ends without any handler of its own running blocks the connection's reader for good
     for tag, (f, o) in final['w'].items():
@@ -1156,7 +1161,7 @@ def _gen_hcase(rng: random.Random, kind: Optional[str] = None) -> dict:
                 if 0.62 <= x < 0.8:
                     x = 0.5
             if x < 0.2:
-                prog.append(['sleep', rng.choice([1, 1, 2, 3])])
+                prog.append(['sleep', rng.choice([1, 1, 2])])
             elif x < 0.3:
                 g = state['gate']
                 state['gate'] += 1
@@ -1341,7 +1346,10 @@ def _gen_hcase(rng: random.Random, kind: Optional[str] = None) -> dict:
         # keep the order of the batch mostly as built (a reply after the message whose handler asks for it), but
         # move the driving task's own requests of the round to the front
         rnd['batch'].sort(key=lambda op: 0 if op[0] in SPAWN else 1)
-    return {'rounds': rounds, 'kind': kind, 'readers': readers}
+    # enough empty rounds afterwards for every suspended handler (one after the other per connection) to finish
+    nsleep = sum(a[1] for rnd in rounds for op in rnd['batch'] for p in _progs_of(op) for a in p if a[0] == 'sleep')
+    nmsg = sum(1 for rnd in rounds for op in rnd['batch'] if op[0] in ('msg', 'feed'))
+    return {'rounds': rounds, 'kind': kind, 'readers': readers, 'extra': min(60, 8 + nsleep + 2 * nmsg)}
 
 
 _SREQ = {'cls': 's', 'msg': 1, 'peer': None, 'fields': [[4, 'c1']]}
